@@ -17,5 +17,6 @@ for f in $UNTRACKED; do mv /tmp/keepseed-$$/$f $f; done; rm -rf /tmp/keepseed-$$
 echo "== demo WITH change (expect FAIL)"
 go test -count=1 -run "$DEMO" $PKG 2>&1 | tail -5; echo "with-change exit=${PIPESTATUS[0]}"
 echo "== demo WITHOUT change (expect PASS)"
-git stash push -q -- $(git diff --name-only) && go test -count=1 -run "$DEMO" $PKG 2>&1 | tail -3; echo "without-change exit=${PIPESTATUS[0]}"; git stash pop -q
+# (git stash is shared between worktrees: revert with the saved patch instead)
+git apply -R $OUT/patch.diff && go test -count=1 -run "$DEMO" $PKG 2>&1 | tail -3; echo "without-change exit=${PIPESTATUS[0]}"; git apply $OUT/patch.diff
 git status --short
